@@ -7,9 +7,12 @@ package c2
 // Nothing here changes behaviour; every function only constructs, calls or reads.
 
 import (
+	"context"
+	"fmt"
 	"net"
 	"sync"
 
+	"github.com/iDigitalFlame/xmt/c2/cfg"
 	"github.com/iDigitalFlame/xmt/com"
 	"github.com/iDigitalFlame/xmt/data"
 	"github.com/iDigitalFlame/xmt/device"
@@ -278,3 +281,41 @@ func VerifC06ChanClientRead(s *Session, x net.Conn) error {
 	n.KeyCrypt(s.keys)
 	return receive(s, s.parent, n)
 }
+
+// VerifC06Loop is a handle on a running (*Session).listen goroutine.
+type VerifC06Loop struct {
+	Done chan struct{} // closed when listen() has returned
+	lock sync.Mutex
+	pan  string
+}
+
+// VerifC06LoopPanic is the panic that ended listen(), if any.
+func (v *VerifC06Loop) VerifC06LoopPanic() string {
+	v.lock.Lock()
+	defer v.lock.Unlock()
+	return v.pan
+}
+
+// VerifC06Listen starts the REAL (*Session).listen - the loop that connects, calls session(), counts
+// errors and goes round - on the bare client Session with the given Profile (its Connect hands out the
+// harness connections one at a time; sleep is 0 so wait() returns at once).  listen() ends through its
+// own "too many errors" exit once the Profile's Connect only fails.
+func VerifC06Listen(s *Session, p cfg.Profile) *VerifC06Loop {
+	v := &VerifC06Loop{Done: make(chan struct{})}
+	s.p, s.ctx = p, context.Background()
+	go func() {
+		defer func() {
+			if x := recover(); x != nil {
+				v.lock.Lock()
+				v.pan = fmt.Sprint(x)
+				v.lock.Unlock()
+			}
+			close(v.Done)
+		}()
+		s.listen()
+	}()
+	return v
+}
+
+// VerifC06Errors is the consecutive-error counter of listen() (0 after an exchange that session() reported complete).
+func VerifC06Errors(s *Session) int { return int(s.errors) }
